@@ -216,6 +216,7 @@ where
     // Track spawned hedge tasks
     let mut hedges_spawned: usize = 0;
     let mut primary_error: Option<S::Error> = None;
+    let mut attempts_failed: usize = 0;
 
     // Get delay for first hedge
     let first_delay = config.delay.get_delay(1);
@@ -259,8 +260,9 @@ where
                                     if attempt == 0 {
                                         primary_error = Some(e.clone());
                                     }
-                                    // Check if all attempts exhausted
-                                    if hedges_spawned + 1 >= max_attempts {
+                                    attempts_failed += 1;
+                                    // Check if all attempts have been started and have failed
+                                    if attempts_failed >= max_attempts {
                                         // All spawned, check if this was the last result
                                         config.listeners.emit(&HedgeEvent::AllFailed {
                                             name: config.name.clone(),
